@@ -6,7 +6,7 @@ ROOT = os.path.dirname(os.path.dirname(os.path.abspath(__file__)))
 
 CHECKS = {
  "C09": dict(
-    text="Partial. Theorems C09_one_response_from_own_request_partial (for every global history, i.e. any interleaving of the connections' events over w workers with connection ownership fd mod w, a connection's responses are exactly the handler applied to its own requests, one each, in order) and C09_interleaving_independent_partial. Data-race freedom of the C++ and termination of shutdown() cannot be theorems about an executable Gallina model: they are decided by running the real endpoint built with -fsanitize=thread (1-6 workers, 1-12 keep-alive clients, 5-300 numbered requests over every method table of a shared router and table-less methods, shutdown() after or 0-200 ms into the load): any ThreadSanitizer report, wrong or missing response, shutdown that does not return or framework thread left alive is a violation.",
+    text="Partial. Theorems C09_one_response_from_own_request_partial (for every global history, i.e. any interleaving of the connections' events over w workers with connection ownership fd mod w, a connection's responses are exactly the handler applied to its own requests, one each, in order) and C09_interleaving_independent_partial; C09_no_lost_wakeup_partial and C09_shutdown_ends_loop_partial for the shutdown protocol of an event loop (flag stored before the wake-up descriptor is notified, flag checked at every poll return: once shutdown() has run, the loop's next poll return ends it, whatever else happens). Data-race freedom of the C++ and the thread joins cannot be theorems about an executable Gallina model: they are decided by running the real endpoint built with -fsanitize=thread (1-6 workers, 1-12 keep-alive clients, 5-300 numbered requests over every method table of a shared router and table-less methods, shutdown() after or 0-200 ms into the load): any ThreadSanitizer report, wrong or missing response, shutdown that does not return or framework thread left alive is a violation.",
     note="Closed under the global context. The deciding evidence for the race/shutdown half is ThreadSanitizer on OS-produced schedules (not a proof, not exhaustive). Trusted: harness/h_mt.cc, TSan runtime.",
     technique="Coq proof of the dispatch logic (per-connection independence for every interleaving) + ThreadSanitizer run of the live multi-worker endpoint with response matching and shutdown under load",
     design="§2 C09"),
